@@ -413,3 +413,33 @@ Proof.
   rewrite forallb_forall in H. specialize (H r' Hr'). rewrite D, D' in H. cbn in H.
   apply String.eqb_eq. exact H.
 Qed.
+
+(* ------------------------------------------------------------------ the tokeniser loses nothing *)
+Lemma drop_length_app m r : drop (String.length m) (m ++ r) = r.
+Proof. induction m as [|a m IH]; cbn; [reflexivity|exact IH]. Qed.
+
+Lemma flatten_tok_aux : forall s lit run skip,
+  flatten (tok_aux lit run skip s) = lit ++ run ++ drop skip s.
+Proof.
+  induction s as [|c s IH]; intros lit run skip.
+  - cbn. destruct skip; cbn; rewrite !append_nil_r; reflexivity.
+  - cbn [tok_aux]. destruct skip as [|k].
+    + cbn [drop]. destruct (is_namech c).
+      * rewrite IH. cbn [drop]. rewrite !append_assoc. reflexivity.
+      * destruct (Ascii.eqb c ":"%char && nonempty run) eqn:E.
+        -- apply andb_true_iff in E as [E _]. apply Ascii.eqb_eq in E. subst c.
+           destruct (first_method s) as [m|] eqn:F.
+           ++ apply find_some in F as [_ F]. apply prefixb_spec in F as [r ->].
+              cbn [flatten ptext]. rewrite IH, drop_length_app. cbn [append]. rewrite !append_assoc. reflexivity.
+           ++ rewrite IH. cbn [drop append]. rewrite !append_assoc. reflexivity.
+        -- rewrite IH. cbn [drop append]. rewrite !append_assoc. reflexivity.
+    + rewrite IH. reflexivity.
+Qed.
+
+Theorem flatten_tokenise s : flatten (tokenise s) = s.
+Proof. unfold tokenise. rewrite flatten_tok_aux. reflexivity. Qed.
+
+
+Theorem exact_string refs args :
+  separated refs (tokenise args) -> resolve_args refs args = spec refs (tokenise args).
+Proof. intros S. rewrite <- (flatten_tokenise args) at 1. apply exact, S. Qed.
